@@ -5,6 +5,7 @@ import (
 	"strconv"
 	"sync"
 	"time"
+	"unicode/utf8"
 
 	"github.com/prometheus/client_golang/prometheus"
 )
@@ -450,6 +451,12 @@ func (s *clusterState) ApplyDigest(digest digest) {
 		if _, ok := s.nodes[entry.ID]; ok {
 			continue
 		}
+		// Ignore nodes with an ID that isn't valid UTF-8 (which can only come
+		// from a malformed message). The ID is used as a metrics label which
+		// panics if its not valid UTF-8.
+		if !utf8.ValidString(entry.ID) {
+			continue
+		}
 		// If we a node has left the cluster and we don't know about it
 		// already, then ignore it. Otherwise nodes will keep being
 		// re-discovered after they left.
@@ -476,6 +483,10 @@ func (s *clusterState) ApplyDelta(delta delta) {
 	defer s.mu.Unlock()
 
 	for _, entry := range delta {
+		// As in ApplyDigest, ignore nodes with an ID that isn't valid UTF-8.
+		if !utf8.ValidString(entry.ID) {
+			continue
+		}
 		s.applyDeltaEntry(entry)
 	}
 }
